@@ -179,7 +179,8 @@ def _vec(v):
 
 
 def _member_obs(m, case, term):
-    d = dict(id=int(m.id), evals=int(m.evaluations), gens=int(m.generations), bestE=float(m.bestEnergy), bestX=_vec(m.bestSolution))
+    d = dict(id=int(m.id), evals=int(m.evaluations), gens=int(m.generations), bestE=float(m.bestEnergy), bestX=_vec(m.bestSolution),
+             lim=[None if m._maxiter is None else int(m._maxiter), None if m._maxfun is None else int(m._maxfun)])
     inh = {}
     if case.get("lo"):
         inh["ranges"] = bool(m._useStrictRange) and _vec(m._strictMin) == case["lo"] and _vec(m._strictMax) == case["hi"]
@@ -276,6 +277,9 @@ def run_ensemble(case, mode, mapkind):
         else:
             s.SetObjective(_cost)
             for k in range(STEP_CAP):
+                if case.get("loop") and s.Terminated():      # the canonical `while not solver.Terminated(): solver.Step()` loop
+                    msg = True
+                    break
                 msg = s.Step()
                 snap = _report(s)
                 snap["nreal"] = _log_stats(case, len(s._allSolvers))["nreal"]
@@ -616,6 +620,12 @@ def oracle_ensemble(case, obs):
             last = st["steps"][-1]
             if (last["bestE"], last["bestX"], last["total"]) != (rep["bestE"], rep["bestX"], rep["total"]):
                 add("best_is_min_member", "AbstractEnsembleSolver._Step", "final-state-not-last-step", None)
+        # the limits the members run under do not depend on the mode (Solve / Step-wise / Terminated() asked before the first Step)
+        lims = [m.get("lim") for m in mem]
+        if not inst:
+            if "lims" in finals and finals["lims"][0] != lims and len(lims) == len(finals["lims"][0]):
+                add("members_inherit_settings", "AbstractEnsembleSolver.Terminated", "member-limits-depend-on-mode", dict(first=finals["lims"][0][:2], now=lims[:2], runs=[finals["lims"][1], run]))
+            finals.setdefault("lims", (lims, run))
         key = st["mode"]
         sig = (json.dumps(rep, sort_keys=True), json.dumps([[m["bestE"], m["bestX"], m["evals"]] for m in mem]), json.dumps(iv))
         if case["nested"] in ("DE", "DE2"):
